@@ -350,11 +350,18 @@ def _as_ranges(e):
     if e[0] == "class": return tuple(e[1])
     if e[0] == "lit" and len(e[1]) == 1: return ((ord(e[1]), ord(e[1])),)
     if e[0] == "alt":
-        out = []
+        out = []; multi = []
         for x in e[1]:
             r = _as_ranges(x)
-            if r is None: return None
+            if r is None:
+                if x[0] == "lit" and len(x[1]) > 1: multi.append(x[1]); continue
+                return None
             out += list(r)
+        # `!("\r\n" / "\r" / ..)`: a longer literal whose first character is itself an alternative adds nothing to the set of
+        # positions at which the lookahead fails
+        for m in multi:
+            c = ord(m[0])
+            if not any(a <= c <= b for a, b in out): return None
         return tuple(out)
     return None
 
